@@ -12,7 +12,7 @@
    NOT proved (and not needed by any statement below): the Jordan curve theorem, i.e. that the
    crossing-number interior used for polygons (C04) is the topological interior of a simple polygon.
    The polygon's exactness is C04's theorem. *)
-From Coq Require Import Reals Lra List ZArith.
+From Coq Require Import Reals Lra List ZArith QArith.
 From Sdfx Require Import Num.Ops Num.RInst Geo.Vec Geo.Box Geo.BoxR Geo.NormR Geo.Mat
   Sdf.Union2 Sdf.Union2R Sdf.Shape Sdf.ShapeR Sdf.LipR Sdf.ConeR Sdf.LipTreeR Sdf.RotCopyR Sdf.ExactR Sdf.C03Refute.
 Import ListNotations.
@@ -295,6 +295,14 @@ Theorem rotatecopy_asymmetric_refuted :
     lipwf2 s /\ build2 (RotateCopy2 s 2) = Some o /\ dist2 p q < Rabs (ev2 o p - ev2 o q).
 Proof. exact C03Refute.rotatecopy_asymmetric_refuted. Qed.
 Print Assumptions rotatecopy_asymmetric_refuted.
+
+(* REFUTED without its hypotheses: the box-pruned Union2D over an operand with an empty solid (the
+   intersection of two disjoint boxes) jumps from 23/2 at (-21/2, 0) to 19/2 at (-21/2, 1/2); exact
+   rational evaluation of the model (no square root on these paths). prune_witness, prune_values:
+   coq/Sdf/C03Refute.v *)
+Theorem union2_prune_refuted : prune_values = Some (23 # 2, 19 # 2)%Q.
+Proof. exact C03Refute.union2_prune_refuted. Qed.
+Print Assumptions union2_prune_refuted.
 
 (* ================================================================== all compositions *)
 (* lipwf2 / lipwf3 (coq/Sdf/LipTreeR.v): listed combinators only; blends plain or polynomial with k > 0;
